@@ -68,6 +68,8 @@ class BondDescriptor(BigSMILESbase):
 
         if self._raw_text[0] != "[" or self._raw_text[-1] != "]":
             raise RuntimeError(f"Bond descriptor {self._raw_text} does not start and end with []")
+        if "[" in self._raw_text[1:] or "]" in self._raw_text[:-1]:
+            raise RuntimeError(f"Bond descriptor {self._raw_text} contains unbalanced or nested brackets.")
         if self._raw_text[1] not in ("$", "<", ">"):
             raise RuntimeError(
                 f"Bond descriptor {self._raw_text} does not have '$<>' as its second character"
